@@ -2233,6 +2233,86 @@ fn main() {
             println!("written={}", keys.len());
             println!("lost={}", lost);
         }
+        // get_sources : 27 keys, one per combination of (table, immutable memtable, active memtable) x (nothing, value, tombstone);
+        // every key is read without a snapshot and at the snapshot taken after each stage; reference = newest stage that wrote the key
+        "get_sources" => {
+            use raindb::{ReadOptions, WriteOptions};
+            let mut o = raindb::DbOptions::with_memory_env();
+            o.db_path = "db".to_string();
+            o.create_if_missing = true;
+            o.max_memtable_size = 64 * 1024;
+            let db = std::sync::Arc::new(raindb::DB::open(o).expect("open"));
+            // what[stage][key index] = 0 nothing, 1 value, 2 tombstone
+            let combos: Vec<[u8; 3]> = (0..27u8).map(|i| [i / 9, (i / 3) % 3, i % 3]).collect();
+            let key = |i: usize| format!("k{:02}", i).into_bytes();
+            let val = |i: usize, st: usize| format!("v{}-{}", i, st).into_bytes();
+            let mut snaps = vec![];
+            for st in 0..3usize {
+                if st == 1 {
+                    db.hold_background_for_verif(true);
+                }
+                for (i, c) in combos.iter().enumerate() {
+                    match c[st] {
+                        1 => db.put(WriteOptions::default(), key(i), val(i, st)).unwrap(),
+                        2 => db.delete(WriteOptions::default(), key(i)).unwrap(),
+                        _ => {}
+                    }
+                }
+                snaps.push(db.get_snapshot());
+                if st == 0 {
+                    println!("flushed={}", db.flush_for_verif());
+                }
+                if st == 1 {
+                    // rotate the memtable: its flush is held back, so it stays the immutable memtable
+                    let mut n = 0;
+                    while !db.has_immutable_memtable_for_verif() && n < 200 {
+                        db.put(WriteOptions::default(), format!("pad{:04}", n).into_bytes(), vec![b'x'; 1024]).unwrap();
+                        n += 1;
+                    }
+                }
+            }
+            println!("imm_present={}", db.has_immutable_memtable_for_verif());
+            let expect = |i: usize, upto: usize| -> Option<Vec<u8>> {
+                for st in (0..=upto).rev() {
+                    match combos[i][st] {
+                        1 => return Some(val(i, st)),
+                        2 => return None,
+                        _ => {}
+                    }
+                }
+                None
+            };
+            let (mut reads, mut bad, mut first) = (0, 0, String::new());
+            let mut pass = |label: &str, db: &raindb::DB| {
+                for i in 0..27usize {
+                    for mode in 0..4usize {
+                        let (ro, upto) = if mode == 3 { (ReadOptions::default(), 2) } else { (ReadOptions { fill_cache: true, snapshot: Some(snaps[mode].clone()) }, mode) };
+                        let got = db.get(ro, &key(i)).ok();
+                        reads += 1;
+                        if got != expect(i, upto) {
+                            bad += 1;
+                            if first.is_empty() {
+                                first = format!("{} key {} (table/imm/mem = {:?}) read {}: got {:?}, expected {:?}", label, i, combos[i],
+                                    if mode == 3 { "without snapshot".to_string() } else { format!("at the snapshot after stage {}", mode) },
+                                    got.map(|v| String::from_utf8_lossy(&v).to_string()), expect(i, upto).map(|v| String::from_utf8_lossy(&v).to_string()));
+                            }
+                        }
+                    }
+                }
+            };
+            pass("with a pending immutable memtable:", &db);
+            db.hold_background_for_verif(false);
+            db.schedule_compaction_for_verif();
+            let t0 = std::time::Instant::now();
+            while db.has_immutable_memtable_for_verif() && t0.elapsed() < std::time::Duration::from_secs(15) {
+                std::thread::sleep(std::time::Duration::from_millis(20));
+            }
+            println!("imm_flushed={}", !db.has_immutable_memtable_for_verif());
+            pass("after the held flush:", &db);
+            println!("reads={}", reads);
+            println!("mismatches={}", bad);
+            println!("first_mismatch={}", first);
+        }
         // cache_ids : eight threads draw 50000 block-cache ids each from the default block cache; ids must be unique
         "cache_ids" => {
             let o = raindb::DbOptions::with_memory_env();
